@@ -10,6 +10,12 @@ from harness.models import jsonmodel, jsonmodel2
 
 SHARED_TO_DAO_STATE = ToDAOState()      # one conversion state for every heap this process converts (objects die in between)
 
+# truth value of every model instance, switchable per case (a mapped object may be a falsy Python object, e.g. an empty
+# container-like dataclass); conversions must not depend on it
+FALSY = [False]
+for _k in (VA, VC, VM):
+    _k.__bool__ = lambda self: not FALSY[0]
+
 GEN = None
 SCALARS = {"VA": ["name", "kind", "when", "nums", "weight", "k", "a", "b", "w", "label"], "VB": ["name", "kind", "when", "nums", "weight", "k", "a", "b", "w", "label", "extra"],
            "VC": ["tag", "tag2", "j1", "j2", "cb"], "VW": ["tag", "tag2", "j1", "j2", "cb", "hidden", "extra_w"], "VM": ["label"], "VN": ["label", "extra"]}
@@ -92,6 +98,14 @@ def iso(a, b, as_sets=False):
 
 
 def c04(case):
+    FALSY[0] = bool(case.get("falsy"))
+    try:
+        return _c04(case)
+    finally:
+        FALSY[0] = False
+
+
+def _c04(case):
     objs = build(case)
     root = objs[case["root"]]
     out = {}
@@ -112,6 +126,14 @@ def c04(case):
 
 
 def c05(case):
+    FALSY[0] = bool(case.get("falsy"))
+    try:
+        return _c05(case)
+    finally:
+        FALSY[0] = False
+
+
+def _c05(case):
     from sqlalchemy import select, text
     from sqlalchemy.orm import Session
     from krrood.ormatic.utils import create_engine
